@@ -30,7 +30,7 @@ import numpy as np
 VERIF_DIR = os.path.dirname(os.path.dirname(os.path.abspath(__file__)))
 REPO_DIR = os.environ.get("VERIF_REPO", "/repo")
 EVIDENCE_DIR = os.path.join(VERIF_DIR, "evidence")
-REPLAY_DIR = os.path.join(VERIF_DIR, "replays")
+REPLAY_DIR = os.environ.get("VERIF_REPLAY_DIR") or os.path.join(VERIF_DIR, "replays")
 FINDINGS_DIR = os.path.join(VERIF_DIR, "findings")
 KNOWN_FINDINGS_FILE = os.path.join(VERIF_DIR, "known_findings.txt")
 N_WORKERS = int(os.environ.get("VERIF_WORKERS", "16"))
